@@ -1,0 +1,32 @@
+//go:build verif
+
+package openapiv3
+
+// Contracts checked by /verif/goavc (comment-only file, built only with -tags verif).
+
+// The validation tail of schemafy: the keywords of the OpenAPI 3 schema mirror the design's validation, and
+// a length bound lands on the keyword that applies to the kind of value. Everything before the tail (type
+// dispatch, references, examples) is not specified here; user types return a reference early.
+//@ func (*schemafier).schemafy
+//@   property C14
+//@   requires sf != nil
+//   -- the helpers called before the tail (examples, extensions, hashing, naming) do not modify the attribute being documented
+//@   unknown_calls_preserve fieldsOf(expr.AttributeExpr), fieldsOf(expr.ValidationExpr)
+//@   let val = attr.Validation
+//@   let early = implements(attr.Type, expr.UserType)
+//@   let isArray = typeIs(attr.Type, *expr.Array)
+//@   let isMap = typeIs(attr.Type, *expr.Map)
+//@   ensures* enum.format.pattern: !early && val != nil ==> result != nil && result.Enum == val.Values && result.Pattern == val.Pattern && (val.Format != "" ==> result.Format == val.Format)
+//@   ensures* bounds: !early && val != nil ==> (val.Minimum != nil ==> result.Minimum == val.Minimum) && (val.Maximum != nil ==> result.Maximum == val.Maximum) && (val.ExclusiveMinimum != nil ==> result.ExclusiveMinimum == val.ExclusiveMinimum) && (val.ExclusiveMaximum != nil ==> result.ExclusiveMaximum == val.ExclusiveMaximum)
+//@   ensures* length.array: !early && val != nil && isArray ==> (val.MinLength != nil ==> result.MinItems == val.MinLength) && (val.MaxLength != nil ==> result.MaxItems == val.MaxLength)
+//@   ensures* length.string: !early && val != nil && !isArray && !isMap ==> (val.MinLength != nil ==> result.MinLength == val.MinLength) && (val.MaxLength != nil ==> result.MaxLength == val.MaxLength)
+//@   ensures* length.map.applicable: !early && val != nil && isMap ==> result.MinLength == nil && result.MaxLength == nil
+//@   modifies all
+//@   preserves fieldsOf(expr.AttributeExpr), fieldsOf(expr.ValidationExpr)
+//@   loop 1 modifies elems(string)
+//@   loop 2 modifies elems(string)
+//@   loop 3 modifies elems(string)
+//@   loop 4 modifies elems(string)
+//@   loop 5 modifies elems(string)
+//@   loop 6 modifies elems(string)
+//@   loop 7 modifies elems(string)
